@@ -643,6 +643,12 @@ def check_model(case, ctx):
         b = getattr(rx, 'bep', None)
         if b is not None and b not in used_beps:
             used_beps.append(b)
+    def bep_members(b_):
+        """intended membership, from the case: the reactions given this BEP as transition state, filed under its direction"""
+        k_ = [id(x) for x in M['beps']].index(id(b_))
+        ids = {rx_.id for rx_, r_ in zip(M['reactions'], case['rxns']) if r_['ts'] == 'bep' and r_['bep'] == k_}
+        d_ = case['beps'][k_]['direction']
+        return {'cleavage': ids if d_ == 'cleavage' else set(), 'synthesis': ids if d_ == 'synthesis' else set()}
     yb = doc.get('beps', []) or []
     if [b.get('id') for b in yb] != [b.name for b in used_beps]:
         ctx.fail('C07.model/yaml:bep-list', '%r vs %r' % ([b.get('id') for b in yb], [b.name for b in used_beps]))
@@ -654,8 +660,7 @@ def check_model(case, ctx):
                     abs(iv - want) > 1e-9 * max(1, abs(want)):
                 ctx.fail('C07.model/yaml:bep-parameters', repr(e))
                 break
-            for key, lst in (('cleavage-reactions', b.cleavage_reactions), ('synthesis-reactions', b.synthesis_reactions)):
-                want_ids = {x.id for x in lst}
+            for key, want_ids in (('cleavage-reactions', bep_members(b)['cleavage']), ('synthesis-reactions', bep_members(b)['synthesis'])):
                 got_ids = decode_range(['"%s"' % s_.strip('"') for s_ in e.get(key, [])], 'list') if e.get(key) else set()
                 if got_ids != want_ids:
                     ctx.fail('C07.model/yaml:bep-members', '%s %s: file %r model %r' % (b.name, key, e.get(key), sorted(want_ids)))
@@ -829,10 +834,10 @@ def check_model(case, ctx):
         for b, (_, k) in zip(used_beps, cb):
             want = c.convert_unit(b.intercept, 'kcal/mol', units.act_energy)
             ok = k.get('slope') == b.slope and k.get('direction') == b.direction and abs(k.get('intercept', 1e99) - want) <= 1e-9 * max(1, abs(want))
-            for key, lst in (('cleavage_reactions', b.cleavage_reactions), ('synthesis_reactions', b.synthesis_reactions)):
+            for key, want_ids in (('cleavage_reactions', bep_members(b)['cleavage']), ('synthesis_reactions', bep_members(b)['synthesis'])):
                 got = k.get(key)
                 got_ids = decode_range(['"%s"' % g_ for g_ in got], 'list') if got not in (None, [], '[]') else set()
-                ok = ok and got_ids == {x.id for x in lst}
+                ok = ok and got_ids == want_ids
             if not ok:
                 ctx.fail('C07.model/cti:bep-parameters', '%s: %r' % (b.name, k))
                 break
